@@ -20,6 +20,8 @@ def lts_replay(ctx, sub, module, cfg, subject, depth, walks, wlen, variant="", b
     args = ["lts", subject, out, "-depth", str(depth), "-walks", str(walks), "-len", str(wlen), "-budget", str(budget)]
     if variant:
         args += ["-variant", variant]
+    if min_cover <= 0:
+        args += ["-nocover"]
     rc, o = ctx.run_vh(args, timeout=timeout)
     reps = ctx.harness_report(o, "lts replay %s" % subject)
     if rc != 0 or not reps:
